@@ -83,14 +83,19 @@ def main(argv=None) -> int:
     # distinct new violations by signature
     seen = set()
     new.sort(key=lambda v: len(json.dumps(v.replay, default=str)))  # smallest replay per signature first
+    MAX_LINES = 40  # one change can fail hundreds of cells of a lattice: report the 40 smallest, count the rest
     for v in new:
         if v.signature in seen:
             continue
         seen.add(v.signature)
+        rc = 1
+        if len(seen) > MAX_LINES:
+            continue
         p = write_replay(pid, {"property": pid, "seed": seed, "tier": a.tier, "kind": "failing-input",
                                "signature": v.signature, "what": v.what, "replay": v.replay})
         print(f"VIOLATION property={pid} replay={p}")
-        rc = 1
+    if len(seen) > MAX_LINES:
+        print(f"({len(seen) - MAX_LINES} further distinct violation signatures of {pid} not listed)")
     if rc == 0 and (lean["broken"] or out.corr_breaks):
         payload = {"property": pid, "seed": seed, "tier": a.tier, "kind": "no-failing-input-found",
                    "broken_obligations": lean["broken"],
